@@ -337,6 +337,26 @@ def origins(du: DefUse, n: Node, e: ast.AST, path=(), _seen=None, depth: int = 0
         return out
     if isinstance(e, ast.Subscript) and isinstance(e.slice, ast.Constant) and isinstance(e.slice.value, int):
         return origins(du, n, e.value, (e.slice.value,) + path, _seen, depth + 1)
+    if isinstance(e, ast.Attribute) and isinstance(e.value, ast.Name):
+        # a field of a local object that was assigned in this function (`obj.f = v` ... `obj.f`), also through an
+        # alias of the object (`r = obj` ... `r.f`)
+        cands = [dotted(e)]
+        for o in origins(du, n, e.value, (), set(), depth + 1):
+            if o.kind == "expr" and isinstance(o.leaf, ast.Call) and isinstance(o.leaf.func, ast.Name) and o.leaf.func.id == "__new__" \
+                    and len(o.leaf.args) == 2 and isinstance(o.leaf.args[1], ast.Constant):
+                cands.append("%s.%s" % (o.leaf.args[1].value, e.attr))
+        for key in cands:
+            fdefs = [d for d in du.reaching(n, key) if d.kind == "assign" and d.value is not None] if key else []
+            if fdefs:
+                out = []
+                for d in fdefs:
+                    k2 = (id(d), path)
+                    if k2 in _seen:
+                        continue
+                    _seen.add(k2)
+                    out.extend(origins(du, d.node, d.value, tuple(d.index) + path, _seen, depth + 1))
+                if out:
+                    return out
     if isinstance(e, ast.Attribute) and isinstance(e.value, ast.Name) and RECORD_FIELDS is not None:
         # field of a NamedTuple / dataclass built in this function: `p = Rec(a, b)` ... `p.b`
         base = origins(du, n, e.value, (), _seen, depth + 1)
